@@ -1,5 +1,5 @@
 """C18: correspondence of Model.restartSimulation with sopht.utils.restart_sim.restart_simulation on
-generated directory contents (gaps, unpadded indices, > 9999, missing rod / forcing files, time mismatch)."""
+generated directory contents (gaps, unpadded indices, > 9999, roll-over of the four-digit padding, missing rod / forcing files, time mismatch)."""
 import os
 import shutil
 import subprocess
@@ -38,12 +38,15 @@ def run(seed=0, tier="quick"):
             r = impl.rng(seed, "restart", i)
             d = os.path.join(tmp0, f"d{i}"); os.makedirs(d)
             os.chdir(d)
-            scenario = ["normal", "empty", "gap", "missing_rod", "missing_forcing", "time_mismatch", "unpadded", "big", "normal"][i % 9]
+            scenario = ["normal", "empty", "gap", "missing_rod", "missing_forcing", "time_mismatch", "unpadded", "big", "rollover", "normal"][i % 10]
             idxs = sorted(set(int(x) for x in r.integers(0, 60, size=int(r.integers(1, 5)))))
             if scenario == "empty":
                 idxs = []
             if scenario == "big":
                 idxs.append(12345)
+            if scenario == "rollover":
+                # the file names stop being zero padded to a common width: numeric and lexicographic order differ
+                idxs += [[9998, 9999, 10000], [999, 9999, 10001, 100000], [99999, 100000]][int(r.integers(0, 3))]
             times = {k: float(r.uniform(0, 9)) for k in idxs}
             latest = max(idxs) if idxs else None
             files = {}
